@@ -256,6 +256,12 @@ func (sn *snode) smatch(topic []byte, qos byte, subs *[]interface{}, qoss *[]byt
 	// let's find the subscribers that match the qos and append them to the list.
 	if len(topic) == 0 {
 		sn.matchQos(qos, subs, qoss)
+
+		// The multi-level wildcard also matches the parent level ("sport/#"
+		// matches "sport", MQTT 3.1.1 section 4.7.1.2)
+		if n, ok := sn.snodes[MWC]; ok {
+			n.matchQos(qos, subs, qoss)
+		}
 		return nil
 	}
 
